@@ -265,7 +265,7 @@ def write_replay(pid, ob, extra):
     return path
 
 
-def check(pid, tier, record_baseline=False):
+def check(pid, tier, record_baseline=False, force_escalation=False):
     t0 = time.time()
     pl = planmod.PLAN.get(pid)
     if pl is None:
@@ -295,7 +295,7 @@ def check(pid, tier, record_baseline=False):
     # when the unbounded engine cannot form its obligations (unit no longer extractable / outside the subset after a
     # change), the deeper bounded stand-in of the property is run as well (DESIGN 13): it can refute, it never proves more
     esc = pl.get("kani_escalation")
-    if esc and tier == "quick" and any(o.backend == "verus" and o.status == "undecided" for o in obligations):
+    if esc and tier == "quick" and (force_escalation or any(o.backend == "verus" and o.status == "undecided" for o in obligations)):
         have = {o.id for o in obligations}
         eob = []
         ov2, res2 = run_kani_set(pl, "thorough", eob, assumptions, meta, filters=esc, tag="esc")
@@ -310,7 +310,7 @@ def check(pid, tier, record_baseline=False):
     obligations.sort(key=lambda o: o.id)
 
     baseline = load_json(BASELINE_PATH, {})
-    base_ids = set(baseline.get(pid, {}).get(tier, []))
+    base_ids = set(baseline.get(pid, {}).get(tier, [])) | set(baseline.get(pid, {}).get("escalation", []))
     known = load_json(KNOWN_PATH, {"findings": [], "fixed": []})
 
     failed = [o for o in obligations if o.status == "failed"]
@@ -437,7 +437,12 @@ def check(pid, tier, record_baseline=False):
     common.write_json(os.path.join(common.EVIDENCE, pid + ".json"), ev)
 
     if record_baseline:
-        baseline.setdefault(pid, {})[tier] = sorted(o.id for o in discharged)
+        if force_escalation:
+            baseline.setdefault(pid, {})["escalation"] = sorted(o.id for o in discharged if "escalation" in o.label)
+            discharged_for_tier = [o for o in discharged if "escalation" not in o.label]
+        else:
+            discharged_for_tier = discharged
+        baseline.setdefault(pid, {})[tier] = sorted(o.id for o in discharged_for_tier)
         common.write_json(BASELINE_PATH, baseline)
 
     print("%s tier=%s: %d obligations, %d discharged, %d failed, %d undecided, %d proof-lost, %.0fs" %
@@ -467,10 +472,11 @@ def main(argv):
     ap.add_argument("--tier", default=os.environ.get("VERIF_TIER", "quick"))
     ap.add_argument("--record-baseline", action="store_true")
     ap.add_argument("--replay")
+    ap.add_argument("--force-escalation", action="store_true", help="development: also run the escalation harnesses (to record them in the baseline)")
     a = ap.parse_args(argv)
     if a.tier not in ("quick", "thorough"):
         a.tier = "quick"
     if a.replay:
         import replay
         return replay.replay(a.pid, a.replay)
-    return check(a.pid, a.tier, a.record_baseline)
+    return check(a.pid, a.tier, a.record_baseline, a.force_escalation)
